@@ -111,51 +111,35 @@ Proof.
 Qed.
 Print Assumptions C01_toDF.
 
-(** dropna(how, thresh, subset) at any position of a chain: the three blocks it compiles to (append num_nulls;
-    WHERE num_nulls < k over a fresh block; SELECT the original columns) evaluate to PySpark's dropna, provided no
-    current column is itself called num_nulls, the subset names current columns, and the method's own guard
-    (minimum number of NULLs <= number of checked columns, i.e. thresh >= 1) lets the call through *)
+(** dropna(how, thresh, subset) at any position of a chain: the three blocks it compiles to (append the NULL count
+    under a helper name that is not a current column; WHERE helper < k over a fresh block; SELECT the original
+    columns) evaluate to PySpark's dropna for every how / thresh (also thresh <= 0: every row is kept) / subset of
+    current columns *)
 Lemma gen_dropna_kind : deco_of decorator_table "dropna" = Some FROM.
 Proof. vm_compute. reflexivity. Qed.
 Lemma gen_dropna_kind_ok : kind_reach_ok gen_cfg FROM = true.
 Proof. vm_compute. reflexivity. Qed.
 Theorem C01_dropna : forall d ics input how thresh subset,
-  ~ In "num_nulls"%string (cur_cols d) -> incl subset (cur_cols d) ->
-  dropna_guard how thresh (match subset with [] => cur_cols d | _ => subset end) = true ->
+  incl subset (cur_cols d) ->
   cols input = ics -> wf_frame input -> GInvR gen_cfg d ics ->
   exists d', step_x gen_cfg (deco_of decorator_table) d (XDropna how thresh subset) = Some d' /\
              eval_df d' input = spec_x (XDropna how thresh subset) (eval_df d input) /\ GInvR gen_cfg d' ics.
 Proof.
   intros. exact (dropna_correct gen_cfg gen_cfg_ok gen_limit_ok (deco_of decorator_table) FROM d ics input how thresh subset
-                   gen_dropna_kind gen_dropna_kind_ok H H0 H1 H2 H3 H4).
+                   gen_dropna_kind gen_dropna_kind_ok H H0 H1 H2).
 Qed.
 Print Assumptions C01_dropna.
+(** the helper columns of dropna (num_nulls) and dropDuplicates (row_num) get a name that no current column has
+    (underscores are appended until the name is unused): formerly a side condition of the domain, now a fact *)
+Theorem C01_helper_name_is_unused : forall base used, ~ In (fresh_name base used) used.
+Proof. exact fresh_not_in. Qed.
+Print Assumptions C01_helper_name_is_unused.
 
 (** the state dropna leaves behind still reads the helper column: a where/select written into that block must not
     mention it ([hf_ok], part of [xs_ok]); the condition is vacuous wherever the original invariant holds *)
 Theorem C01_hidden_condition_vacuous : forall d ics o, InvR gen_cfg d ics -> hf_ok gen_cfg d ics o = true.
 Proof. exact (hf_ok_clean gen_cfg gen_cfg_ok). Qed.
 Print Assumptions C01_hidden_condition_vacuous.
-
-(** the full statement over the wide alphabet is FALSE of the faithful model: dropna on a frame that has a column
-    called num_nulls filters on the user's column (known finding C01/dropna-on-frame-with-column-named-num_nulls;
-    the implementation returns the model's rows, PySpark the spec's) *)
-Definition C01_full_wide : Prop :=
-  forall xs input, wf_frame input -> NoDup (cols input) ->
-    forall d', run_x gen_cfg (deco_of decorator_table) (init_df (cols input)) xs = Some d' ->
-               eval_df d' input = spec_xrun xs input.
-Theorem C01_refuted_dropna_helper_column : ~ C01_full_wide.
-Proof.
-  intro H.
-  pose (input := mkFrame ["num_nulls"; "b"]%string [[VInt 1; VInt 2]; [VNull; VInt 3]; [VInt 0; VNull]]).
-  assert (Hwf : wf_frame input) by (intros r [<-|[<-|[<-|[]]]]; reflexivity).
-  assert (Hnd : NoDup (cols input)) by (apply nodupb_sound; reflexivity).
-  destruct (run_x gen_cfg (deco_of decorator_table) (init_df (cols input)) [XDropna true None []]) as [d'|] eqn:E;
-    [|vm_compute in E; discriminate].
-  specialize (H [XDropna true None []] input Hwf Hnd d' E).
-  vm_compute in E. inversion E; subst d'. vm_compute in H. discriminate.
-Qed.
-Print Assumptions C01_refuted_dropna_helper_column.
 
 (** every list over the widened alphabet: core operations, withColumn/withColumnRenamed/drop, fillna, replace,
     toDF and dropna, in any order, on the decidable domain [xs_ok] *)
@@ -199,11 +183,13 @@ Example C01_wide_domain_dropna_toDF :
      XCore (URename "num_nulls" "a")] = true.
 Proof. vm_compute. reflexivity. Qed.
 
-(** outside the domain: dropna on a frame that has a column called num_nulls; mentioning the helper column in the
-    where that directly follows a dropna *)
-Example C01_wide_domain_excludes :
+(** dropna on a frame that has a column called num_nulls (and dropDuplicates on one with row_num) is inside the domain
+    since the helper names are chosen fresh (fixed findings C01/dropna-on-frame-with-column-named-num_nulls,
+    C01/dropDuplicates-on-frame-with-column-named-row_num); still outside: mentioning dropna's hidden helper column in
+    the where that directly follows it (PySpark raises AnalysisException there) *)
+Example C01_wide_domain_helper_names :
   xs_ok gen_cfg (deco_of decorator_table) (init_df ["num_nulls"; "b"]%string) ["num_nulls"; "b"]%string
-    [XDropna true None []] = false /\
+    [XDropna true None []; XDropna false (Some 0) ["b"%string]] = true /\
   xs_ok gen_cfg (deco_of decorator_table) (init_df ["a"; "b"]%string) ["a"; "b"]%string
     [XDropna true None []; XCore (UOp (OWhere (EBin Eq (ECol "num_nulls") (ELit (VInt 0)))))] = false.
 Proof. split; vm_compute; reflexivity. Qed.
@@ -293,6 +279,8 @@ Example C01_all_domain_nonempty :
     [XCore (UOp (OWhere (EBin Gt (ECol "b") (ELit (VInt 0)))));
      XDropna true None ["a"; "s"]%string;
      XDropDup ["s"%string];
+     XToDF ["x"; "row_num"; "z"]%string;
+     XDropDup ["row_num"; "z"]%string;
      XToDF ["x"; "y"; "z"]%string;
      XUnpivot ["z"%string] ["x"; "y"]%string "var"%string "val"%string;
      XCore (UOp (OWhere (ENot (EIsNull (ECol "val")))));
